@@ -955,7 +955,9 @@ def main():
                f"CLI in-process on {'4 tables (+1 for out-of-bounds inputs)' if q else 'all tables'}: load bg2/coo x "
                "{unique,duplex,square} x base x chunk sizes, same pixel across chunks, out-of-bounds starts/ids, --field placements (6 x 2); cload pairs x "
                f"modes x base x chunk sizes (+ default mergebuf), out-of-bounds, {'all 720' if B.thorough else 'the 24 positional + 6 ascending + 6 seeded'} "
-               "column permutations of a 6-column file; cload tabix x base x max-split x 2 layouts, out-of-bounds pos1/pos2. SEEDED (representatives "
+               "column permutations of a 6-column file; cload tabix x base x max-split x 2 layouts, out-of-bounds pos1/pos2; MORE CHUNKS THAN max-merge "
+               f"(two-pass merge): (max_merge, chunks) in {MANY_CHUNKS_QUICK + (MANY_CHUNKS_MORE if B.thorough else [])} x "
+               "{create_cooler(ordered=False), create_from_unordered, cload pairs, load bg2, load coo} with modes/base rotating. SEEDED (representatives "
                "inside the scope): shuffles, duplicate picks, orientation/holes of pre-binned inputs" + ("; random tables" if B.thorough else ""))
     B.rule = ("case = (table, schema/loader, base, tril mode, record or record multiset, order, chunking, argv); "
               "non-trivial when at least one record is retained (per-record cases: the record lies on known chromosomes); distinct by case")
@@ -974,6 +976,15 @@ def main():
     Tv = next(t for t in TT if t.name == "variable")
     Tf = next(t for t in TT if t.name == "fixed10-short-last")
     units.append(("globals", unit_globals, (Tv, Tf)))
+    allL = ("api", "cload-pairs", "load-bg2", "load-coo")
+    if B.thorough:
+        for T in TT:
+            if T.name.startswith("random") and T.n < 3:
+                continue
+            units.append((f"many-chunks:{T.name}", unit_many_chunks, (T, MANY_CHUNKS_QUICK + MANY_CHUNKS_MORE, allL)))
+    else:
+        units.append(("many-chunks:variable", unit_many_chunks, (Tv, MANY_CHUNKS_QUICK, allL)))
+        units.append(("many-chunks:fixed", unit_many_chunks, (Tf, MANY_CHUNKS_QUICK[:4], ("api", "cload-pairs"))))
     allperms = list(itertools.permutations(range(1, 7)))
     if B.thorough:
         for c in range(0, 720, 90):
@@ -1081,6 +1092,10 @@ def unit_table(B, T, first, do_cli, do_inv, first_three=True):
         cli_cload_invalid(B, T)
 
 
+def unit_many_chunks(B, T, combos, loaders):
+    many_chunks(B, T, combos, loaders)
+
+
 def unit_globals(B, Tv, Tf):
     # chunking with the loader's own default merge buffer (= chunksize)
     cli_cload_pairs(B, Tf, (lambda n, z=1: [max(2, n // 4)]) if not B.thorough else (lambda n, z=1: [2, 5, max(2, n // 4)]), default_mergebuf=True)
@@ -1147,23 +1162,113 @@ def run_units(B, units, workers):
     B.sig_seen.update(seen)
 
 
-def _e2e(B, T, z, tril, rr, oname, cs, model, retained):
-    case = dict(table=T.name, schema="pairs", one_based=z, tril=tril, order=oname, chunksize=cs, records=len(rr),
+def _e2e(B, T, z, tril, rr, oname, cs, model, retained, max_merge=None, entry="create_cooler"):
+    case = dict(table=T.name, schema="pairs", one_based=z, tril=tril, order=oname, chunksize=cs,
+                records=len(rr) if max_merge is None else [list(r) for r in rr],
                 multiset="edge-position pairs + duplicates + unknown chroms", seed=B.seed)
     chunks = [rr[i:i + cs] for i in range(0, len(rr), cs)]
+    kind = T.kind
+    kw = {}
+    if max_merge is not None:
+        case.update(max_merge=max_merge, chunks=len(chunks), entry=entry)
+        kind += ":chunks-exceed-max-merge" if len(chunks) > max_merge else ""
+        kw["max_merge"] = max_merge
     f = sanitizer(T, "pairs", z, tril, True, sort=True)
     agg = aggregate_records(sort=False)
     p = fresh(B, "api-e2e.cool")
 
     def build():
-        create_cooler(p, T.bins, (agg(f(frame(T, ch, "pairs", True))) for ch in chunks), ordered=False,
-                      symmetric_upper=tril is not None, mergebuf=10 ** 6)
+        stream = (agg(f(frame(T, ch, "pairs", True))) for ch in chunks)
+        if entry == "create_cooler":
+            create_cooler(p, T.bins, stream, ordered=False, symmetric_upper=tril is not None, mergebuf=10 ** 6, **kw)
+        else:
+            from cooler.create import create_from_unordered
+            create_from_unordered(p, T.bins, stream, symmetric_upper=tril is not None, mergebuf=10 ** 6, **kw)
         return read_pixels(p)
-    res = guarded(B, "record-to-pixel.create_cooler", case, build, T.kind)
+    res = guarded(B, "record-to-pixel.create_cooler", case, build, kind)
     if res is not None:
         tot, dup = res
         B.check("record-to-pixel.create_cooler", not dup and dict(tot) == dict(model) and sum(tot.values()) == retained,
-                case, _diff(tot, model), "recount", nontrivial=retained > 0, signature=f"record-to-pixel.create_cooler:{T.kind}")
+                case, _diff(tot, model), "recount", nontrivial=retained > 0, signature=f"record-to-pixel.create_cooler:{kind}")
+
+
+# (max_merge, number of chunks): more chunks than one merge pass takes (two-pass merge); chunk counts that are not
+# multiples of max_merge, multiples as controls, and counts at / below max_merge (single pass) as controls
+MANY_CHUNKS_QUICK = [(5, 7), (5, 11), (5, 10), (2, 3), (2, 5), (3, 7), (3, 4), (2, 4), (5, 6), (3, 3)]
+MANY_CHUNKS_MORE = [(2, 7), (2, 9), (3, 5), (3, 8), (3, 10), (5, 8), (5, 9), (5, 13), (5, 15), (5, 16), (4, 9), (7, 11), (1, 3), (1, 4)]
+
+
+def take_chunks(recs, k, cs):
+    """a prefix of `recs` (cycled if short) that splits into exactly k chunks of size cs, the last one short"""
+    n = cs * (k - 1) + max(1, cs // 2)
+    out = [recs[i % len(recs)] for i in range(n)]
+    assert -(-len(out) // cs) == k
+    return out
+
+
+def many_chunks(B, T, combos, loaders=("api", "cload-pairs", "load-bg2", "load-coo")):
+    """no chunk is lost when the ingest needs the two-pass merge: chunks > --max-merge"""
+    binsp = write_bins(B, T)
+    cs = 6
+    pool = pairs_multiset(T, B.rng, extra_dups=4)
+    P = [(i, j) for i in range(T.n) for j in range(i, T.n)]
+    for ci, (mm, k) in enumerate(combos):
+        z = ci % 2
+        mode = ("unique", "square", "duplex")[ci % 3]
+        tril = MODE_TRIL[mode]
+        sfx = ":chunks-exceed-max-merge" if k > mm else ""
+        # ---- python API: sanitize + aggregate pipelines into create_cooler(ordered=False) / create_from_unordered
+        if "api" in loaders:
+            rr = shift(take_chunks(pool, k, cs), z)
+            model, retained = recount(T, rr, z, tril)
+            _e2e(B, T, z, tril, rr, "shuffled", cs, model, retained, max_merge=mm, entry=("create_cooler", "create_from_unordered")[ci % 2])
+        # ---- cooler cload pairs
+        if "cload-pairs" in loaders:
+            recs = shift(take_chunks(pool, k, cs), z)
+            model = recount(T, recs, z, tril)
+            inp = write_rows(B.path("mm.pairs"), recs)
+            out = fresh(B, "mm.cool")
+            args = ["cload", "pairs", "-c1", 1, "-p1", 2, "-c2", 3, "-p2", 4, "--chunksize", cs, "--mergebuf", 10 ** 6, "--max-merge", mm] + \
+                MODE_FLAGS[mode] + (["-0"] if not z else []) + [binsp, inp, out]
+            cli_outcome(B, "record-to-pixel.cload-pairs", dict(table=T.name, mode=mode, one_based=z, chunksize=cs, chunks=k, max_merge=mm,
+                                                               seed=B.seed, rows=[list(r) for r in recs]),
+                        args, out, model, T.kind + sfx, retained=model[1])
+        # ---- cooler load: consecutive rows name different pixels (no pixel twice within a chunk), pixels recur across chunks
+        if ("load-bg2" in loaders or "load-coo" in loaders) and len(P) >= cs:
+            n = cs * (k - 1) + cs // 2
+            binrecs = []
+            for r in range(n):
+                i, j = P[r % len(P)]
+                if mode != "unique" and (r // len(P)) % 2:
+                    i, j = j, i              # lower-triangle copies: dropped (duplex) or distinct pixels (square)
+                elif mode == "unique" and r % 2:
+                    i, j = j, i              # written with side 2 first: mirrored
+                binrecs.append((i, j))
+            vals = [2 ** (r // cs) % 1009 + r % 3 for r in range(n)]       # each chunk contributes different values
+            if "load-bg2" in loaders:
+                recs = [(T.rows[i][0], T.rows[i][1] + z, T.rows[j][0], T.rows[j][1] + z) for i, j in binrecs]
+                rows = [(n1, p1, p1 + 1, n2, p2, p2 + 1, v) for (n1, p1, n2, p2), v in zip(recs, vals)]
+                inp = write_rows(B.path("mm.bg2"), rows)
+                out = fresh(B, "mm.cool")
+                args = ["load", "-f", "bg2", binsp, inp, out, "--chunksize", cs, "--mergebuf", 10 ** 6, "--max-merge", mm] + MODE_FLAGS[mode] + \
+                    (["--one-based"] if z else [])
+                cli_outcome(B, "record-to-pixel.load-bg2", dict(table=T.name, mode=mode, one_based=z, chunksize=cs, chunks=k, max_merge=mm,
+                                                                rows=[list(r) for r in rows]),
+                            args, out, recount(T, recs, z, tril, vals), T.kind + sfx)
+            if "load-coo" in loaders and ci % 2 == 0:
+                rows = [(i + z, j + z, v) for (i, j), v in zip(binrecs, vals)]
+                exp = Counter()
+                for (i, j), v in zip(binrecs, vals):
+                    e = expect_pixel(T.n, (i, j), 0, tril)
+                    if e[0] == "pixel":
+                        exp[(e[1], e[2])] += v
+                inp = write_rows(B.path("mm.coo"), rows)
+                out = fresh(B, "mm.cool")
+                args = ["load", "-f", "coo", binsp, inp, out, "--chunksize", cs, "--mergebuf", 10 ** 6, "--max-merge", mm] + MODE_FLAGS[mode] + \
+                    (["--one-based"] if z else [])
+                cli_outcome(B, "record-to-pixel.load-coo", dict(table=T.name, mode=mode, one_based=z, chunksize=cs, chunks=k, max_merge=mm,
+                                                                rows=[list(r) for r in rows]),
+                            args, out, (exp, None), "coo" + sfx)
 
 
 if __name__ == "__main__":
